@@ -12,8 +12,21 @@ namespace Ecal.Props.C16
 open Ecal.DebugCmd
 
 /-- The model dispatches on exactly the keys of `DebugCommandsMap` (regenerated from the Go
-    source on every run), bound to the same Go types, with the same argument-count tests. -/
-theorem vocabulary_matches : Ecal.Gen.C16.commands = vocabulary := by decide
+    source on every run), bound to the same Go types. -/
+theorem vocabulary_matches : Ecal.Gen.C16.commands.map (fun e => (e.1, e.2.1)) = vocabulary := by decide
+
+/-- The argument-count tests, as the extractor EVALUATES them for 0..5 arguments (whatever
+    their source text), do not contradict `Cmd.rejects`. -/
+theorem arg_tests_not_refuted :
+    (Ecal.Gen.C16.commands.zip Cmd.all).all (fun p => !tableRefuted p.1.2.2 p.2.rejectTable) = true := by decide
+
+/-- … and `Cmd.rejects` is what the model's `Run` does: a rejected call returns the usage error
+    at once, whatever the state (no lock, no table touched). -/
+theorem rejects_is_what_run_does (g : Guards) (env : Env) (c : Cmd) (args : List Str) (s : DbgState)
+    (h : c.rejects args.length = true) : ∃ s', c.run g env args s = .ok err s' ∧ s' = s := by
+  cases c <;> simp [Cmd.rejects] at h <;>
+    simp [Cmd.run, runSetBreak, runRmBreak, runCont, runDescribe, runExtract, runInject, h, pure] <;>
+    first | omega | (intro h'; omega) | skip
 
 /-- The reachability invariant: every call-stack entry is a node with a token, every
     interrogation state carries the node and the scope its thread stopped at, and no
@@ -273,6 +286,24 @@ theorem no_lock_held_while_suspended (i : VisitIn) :
   · cases k <;> cases t <;> cases sk <;> cases bp <;> cases bos <;> decide
   · cases c <;> cases d <;> cases k <;> cases t <;> cases sk <;> cases bp <;> cases bos <;> decide
 
+/-- The same for the two other methods an evaluating thread calls: VisitStepInState (which
+    gives the lock up around a nested VisitState) and VisitStepOutState (which gives it up around
+    the wait of break-on-error): the lock is held zero times at every wait point and at exit. -/
+theorem no_lock_held_while_suspended_step (stop onError : Bool) (i : VisitIn) :
+    (∀ h ∈ heldAtWaits (visitStepInEvents false stop i) 0, h = 0) ∧
+    heldAfter (visitStepInEvents false stop i) 0 = 0 ∧
+    (∀ h ∈ heldAtWaits (visitStepOutEvents true onError) 0, h = 0) ∧
+    heldAfter (visitStepOutEvents true onError) 0 = 0 := by
+  obtain ⟨k, t, sk, is, bp, bos⟩ := i
+  rcases is with _ | ⟨c, d⟩
+  · cases stop <;> cases onError <;> cases k <;> cases t <;> cases sk <;> cases bp <;> cases bos <;> decide
+  · cases stop <;> cases onError <;> cases c <;> cases d <;> cases k <;> cases t <;> cases sk <;> cases bp <;>
+      cases bos <;> decide
+
+/-- waiting for the continue command without giving the lock up (VisitStepOutState) is the
+    kind of defect this excludes -/
+example : heldAtWaits (visitStepOutEvents false true) 0 = [1] := by decide
+
 /-- non-vacuity: a thread stepping out that reaches an active break point does wait -/
 example : heldAtWaits (visitEvents false
     { known := true, hasToken := true, sourceKnown := true, istate := some (.stepOut, true),
@@ -286,8 +317,13 @@ theorem deferred_unlock_holds_lock_while_suspended :
       { known := true, hasToken := true, sourceKnown := true, istate := some (.stepOut, true),
         bpActive := true, breakOnStart := false }) 0 = [1] := by decide
 
-/-- VisitState in the Go source contains no `defer` (regenerated on every run): its unlocks
-    are where the model has them. -/
-theorem visitstate_has_no_defer : Ecal.Gen.C16.visitStateDefers = 0 := by decide
+/-- **The lock discipline the model assumes is not refuted by the source**: for every method
+    of `*ecalDebugger` (regenerated from interpreter/debug.go on every run by following all paths
+    with the number of holds, calls into methods of the same receiver included) no path reaches a
+    wait point, an evaluation or a second acquisition with the lock held, none leaves with the
+    lock held. This is what `locked` (command side), `evalExpr` outside `locked` (inject) and
+    `visitEvents` / `visitStepInEvents` / `visitStepOutEvents` (thread side) state in the model.
+    "unknown" verdicts are not obligations (they amplify the search). -/
+theorem lock_discipline_not_refuted : Ecal.Gen.C16.lockRefuted = [] := by decide
 
 end Ecal.Props.C16
